@@ -1,0 +1,48 @@
+//go:build verif
+
+// Contracts for the deductive verifier in /verif (gvc). Comment-only: compiled only under the build
+// tag `verif`, contains no code.
+package analyzer
+
+// ---- entry points ---------------------------------------------------------------------------------------------------
+// What the go/analysis driver guarantees when it calls a checker's Run (ASSUMED of the driver, given the Requires lists
+// and the results proved for runConfig / runAnnotationReader / runIgnoreReader below): the pass has a package, and the
+// results of the required analyzers are in pass.ResultOf with their declared result types.
+//@ macro func cfgOf(pass *analysis.Pass) *config.Config = cast(pass.ResultOf[ConfigReader], *config.Config)
+//@ macro func ignOf(pass *analysis.Pass) *util.IgnoreSet = unbox(pass.ResultOf[IgnoreReader], ignore.IgnoreResult).IgnoreSet
+//@ macro func annOf(pass *analysis.Pass) annotations.PackageAnnotations = unbox(pass.ResultOf[AnnotationReader], annotations.PackageAnnotations)
+//@ macro func hasAnn(pass *analysis.Pass) bool = pass.ResultOf[AnnotationReader] != nil && dyntype(pass.ResultOf[AnnotationReader]) == tagof(annotations.PackageAnnotations)
+//@ macro func driverCfg(pass *analysis.Pass) bool = pass.Pkg != nil && pass.ResultOf != nil && pass.ResultOf[ConfigReader] != nil && dyntype(pass.ResultOf[ConfigReader]) == tagof(*config.Config)
+//@ macro func driverOK(pass *analysis.Pass) bool = driverCfg(pass) && dyntype(pass.ResultOf[IgnoreReader]) == tagof(ignore.IgnoreResult) && (ignOf(pass) != nil ==> isetInv(ignOf(pass)))
+
+// C06: on every path on which the annotation reader's result is available the checker exports exactly one fact, of its
+// own fact type, whose value is that result; otherwise it exports nothing.
+//@ macro func exportsOnce(pass *analysis.Pass, n0 int, tag typetag) bool = hasAnn(pass) ? (pass.$nexports == n0 + 1 && pass.$lastfact != nil && dyntype(pass.$lastfact) == tag && *cast(pass.$lastfact, *annotations.PackageAnnotations) == annOf(pass)) : pass.$nexports == n0
+
+//@ func runImmutableChecker
+//@   props C06 C17 C10
+//@   requires driverOK(pass)
+//@   ensures exportsOnce(pass, old(pass.$nexports), tagof(*annotations.ImmutableCheckerFact))
+//@   ensures result0 == nil && result1 == nil
+//@ func runConstructorChecker
+//@   props C06 C17 C10
+//@   requires driverOK(pass)
+//@   ensures exportsOnce(pass, old(pass.$nexports), tagof(*annotations.ConstructorCheckerFact))
+//@   ensures result0 == nil && result1 == nil
+//@ func runTestOnlyChecker
+//@   props C06 C17 C10
+//@   requires driverOK(pass)
+//@   ensures exportsOnce(pass, old(pass.$nexports), tagof(*annotations.TestOnlyCheckerFact))
+//@   ensures result0 == nil && result1 == nil
+//@ func runPackageOnlyChecker
+//@   props C06 C17 C10
+//@   requires driverOK(pass)
+//@   ensures exportsOnce(pass, old(pass.$nexports), tagof(*annotations.PackageOnlyCheckerFact))
+//@   ensures result0 == nil && result1 == nil
+
+// the ignore reader hands a well-formed suppression set to the checkers
+//@ func runIgnoreReader
+//@   props C07 C08 C10
+//@   requires driverCfg(pass)
+//@   ensures result1 == nil && result0 != nil && dyntype(result0) == tagof(ignore.IgnoreResult)
+//@   ensures unbox(result0, ignore.IgnoreResult).IgnoreSet != nil && isetInv(unbox(result0, ignore.IgnoreResult).IgnoreSet)
